@@ -138,5 +138,5 @@ def run_sdp(ctx, case):
 
 SUBCHECKS = [
     SubCheck('closed_form', run_closed, strategy=_strat, examples=(1500, 10000), shards=(4, 16), floors={'two-qubit': 0.05, 'boundary state': 0.3}),
-    SubCheck('symmetric_extension', run_sdp, strategy=_strat_sdp, examples=(12, 120), shards=(8, 16)),
+    SubCheck('symmetric_extension', run_sdp, strategy=_strat_sdp, examples=(12, 120), shards=(8, 16), shrink=False),
 ]
